@@ -636,6 +636,11 @@ void map_sweep() {
         fail("ORACLE", "%s: find(%d) disagrees with the reference value %d", phase, k, ref[k]);
       it.reset();
       count += ref[k] >= 0;
+      if (ref[k] >= 0) { // insertion succeeds iff the key is absent - wherever the key is stored after grows and removals
+        if (M::emplace(*map, k, 7)) fail("ORACLE", "%s: emplace of the present key %d succeeded (cap %d, n %d)", phase, k, cap, n);
+        auto g = M::get_or_emplace(*map, k, 8);
+        if (g.first || g.second != ref[k]) fail("ORACLE", "%s: get_or_emplace on the present key %d returned (%d, %d), expected value %d", phase, k, (int)g.first, g.second, ref[k]);
+      }
     }
     bool seen[64] = {};
     int yielded = 0;
